@@ -137,7 +137,7 @@ func VerifH_C09_MultiSearch() {
 		}
 	}
 	size := rt.Choice("size", 3) + 1
-	from := rt.Choice("from", 3)
+	from := []int{0, 1, 2, n, n + 1}[rt.Choice("from", 5)] // inside, at and beyond the end of the result
 	mode := rt.Choice("mode", 3) // 0 plain, 1 search-after, 2 search-before
 	req := NewSearchRequestOptions(NewMatchAllQuery(), size, from, false)
 	req.SortByCustom(search.SortOrder{&search.SortField{Field: "f"}, &search.SortDocID{}})
@@ -225,6 +225,7 @@ func VerifH_C09_MultiSearch() {
 	}
 	rt.Cover(rt.And(len(shards[0].docs) == 0, len(sr.Hits) >= 2), "empty-shard")
 	rt.Cover(rt.And(mode == 2, len(sr.Hits) >= 2), "search-before-page")
+	rt.Cover(rt.And(mode == 0, from >= n, len(sr.Hits) == 0), "page-beyond-the-result")
 }
 
 // VerifH_C09_ChildRequest: what every shard is asked is the caller's request (query, sort with every
